@@ -29,6 +29,10 @@ use super::{GeneratorState, ExprType, FlagsState};
 impl<'a> GeneratorState<'a> {
     pub(crate) fn generate_arithm(&mut self, l: &ExprType, op: &Operation, r: &ExprType,  pos: usize, high_byte: bool) -> Result<ExprType, Error>
     {
+        // When an indexed operand needed Y, the Y of the program is parked in cctmp
+        if self.saved_y && (*l == ExprType::Y || *r == ExprType::Y) {
+            return Err(self.compiler_state.syntax_error("Y is used both as an index and as a value in this statement. Please use an intermediate variable", pos));
+        }
         let mut acc_in_use = self.acc_in_use;
         debug!("Arithm: {:?},{:?},{:?} (hb:{})", l, op, r, high_byte);    
         let left;
@@ -330,6 +334,10 @@ impl<'a> GeneratorState<'a> {
 
     pub(crate) fn generate_shift(&mut self, left: &ExprType, op: &Operation, right: &ExprType, pos: usize, high_byte: bool) -> Result<ExprType, Error>
     {
+        // When an indexed operand needed Y, the Y of the program is parked in cctmp
+        if self.saved_y && (*left == ExprType::Y || *right == ExprType::Y) {
+            return Err(self.compiler_state.syntax_error("Y is used both as an index and as a value in this statement. Please use an intermediate variable", pos));
+        }
         let mut acc_in_use = self.acc_in_use;
         let signed;
         match left {
